@@ -235,6 +235,11 @@ def _check(case, chain):
                 i = next((k for k, (a, b) in enumerate(zip(got, F)) if a != b), min(len(got), len(F)))
                 raise Violation('layout/%s/%s' % (t, part), '%s frame differs from the protocol layout at byte %d (library %d bytes, protocol %d): '
                                 '..%s vs ..%s' % (t, i, len(got), len(F), got[max(0, i - 4):i + 8].hex(), F[max(0, i - 4):i + 8].hex()))
+            # the other two ways of framing the same message object (Serializable interface) give the same bytes
+            g = io.BytesIO()
+            libx.call('stream_serialize/' + t, o.stream_serialize, g)
+            if g.getvalue() != F or libx.call('serialize/' + t, o.serialize)[1] != F:
+                raise Violation('layout/%s/stream_serialize' % t, '%s: stream_serialize() / serialize() differ from to_bytes()' % t)
         frames.append((m, F))
         if len(pl) and any(isinstance(v, list) and v for v in m.values()):
             nt = True
